@@ -33,6 +33,11 @@ STEER = {
      (b) ORDER OF CALLS ACROSS OBJECTS: a sub-builder (inputs, mint, certificates, withdrawals, votes, proposals) that is handed to the transaction builder, modified afterwards and handed over again - or not handed over again; the builder queried (fee, size, totals, build) between two steps; the same call made twice (a retry);
      (c) ERROR PATHS: a call that fails after it has already changed part of the state, and the caller carries on (adds more funds, retries, builds anyway with build_tx_unsafe / build);
      (d) the SECOND of two balancing attempts, a selection after a selection, change after a removed output - anything where the first pass leaves something behind that the second pass trusts.''',
+ '12': '''Prefer changes of one of these kinds, which earlier rounds used least:
+     (a) an ASYMMETRY between two code paths that have to agree and that no single test compares: the estimate and what is finally emitted (mock witness set vs real witness set, size model vs serializer, fee probe vs final fee), a stand-alone helper and the builder's own bookkeeping, the first and the second way of doing the same thing (`*_utxo` vs `*_input` entry points, typed setter vs builder, legacy vs Conway form of a certificate);
+     (b) a NUMERIC EDGE that needs a particular magnitude: counts of 23/24, 255/256 items, lengths of 23/24, 64/65, 255/256 bytes, amounts around 2^16, 2^32, 2^63, 2^64-1, a percentage or price with a remainder, zero as a legal value (zero deposit, zero fee coefficient, zero withdrawal, zero ex-units, 0-of-k);
+     (c) a RARE VARIANT of an enum that the common paths never see (pointer and Byron/Daedalus addresses, move-instantaneous-rewards, genesis delegation, committee certificates, the seven governance actions, Plutus V1/V3 next to V2, native `0 of k` / time-only scripts, the three auxiliary-data shapes, legacy array-form outputs);
+     (d) something that shows only when THREE conditions meet (e.g. a configuration option AND a kind of input AND a retry).''',
 }.get(rnd, '')
 
 TEMPLATE = '''You are helping to evaluate a verification harness by producing realistic, subtle bugs ("seeded changes") in a Rust library.
